@@ -138,7 +138,7 @@ CHECKS = {
     },
     "C12": {
         "text": "Exploration: right graphs that fall apart in every generated way (extra vertices, detached sub-trees, re-pointed edges, graphs that went through slice()/clone()); Ok must imply that every present vertex is reachable, "
-                "Err must name the missed vertices; one case in four runs right after another, rightly rejected merge into the same left graph.",
+                "Err must name the missed vertices and list no vertex that was mapped; one case in four runs right after another, rightly rejected merge into the same left graph.",
         "design_ref": "§4 C12",
         "note": TRUST,
         "technique": "result monitor with independently computed reachability",
@@ -160,7 +160,7 @@ CHECKS = {
     "C07": {
         "text": "Exploration under sanitizers: the same hostile workload (legal prefix, one limit overrun that must panic, tainted phase) is run "
                 "natively with debug assertions, under AddressSanitizer (the instrument the property names), under Miri in two modes and (thorough) "
-                "under valgrind memcheck; each instrument first has to report a canary. In-limits calls of the prefix must complete, the overrun must panic, "
+                "under valgrind memcheck; each instrument first has to report a canary. In-limits calls of the prefix (each followed by len() and is_empty()) must complete, the overrun must panic, "
                 "and right after the caught overrun panic the read-only calls on every present vertex must still complete. Reports are classified into the four classes of the statement; "
                 "other UB kinds make the run inconclusive, never a verdict.",
         "design_ref": "§4 C07, §3.2",
